@@ -596,11 +596,18 @@ func histRandom(r *rng, profile string) histScn {
 	}
 	for i := 0; i < nw; i++ {
 		w := histW{maxBatch: uint32(r.pick(0, 0, 1, 2, 3)), maxAttempts: uint32(r.pick(0, 0, 2, 3))}
-		switch r.intn(6) {
+		switch r.intn(7) {
 		case 0:
 			w.mot = motEff / 2
 		case 1:
 			w.mot = -5 * ms
+		case 2:
+			// longer than the Batcher's: the audit may write a live batch off (C03 still has to hold). Not with a slot
+			// limit: there the audit also drains the slot tokens and the late batch goroutine waits for one for ever -
+			// the configuration C10 and C19 exclude.
+			if r.chance(1, 3) && s.mcb == 0 {
+				w.mot = motEff * 2
+			}
 		}
 		eff := motEff
 		if w.mot > 0 {
